@@ -233,6 +233,10 @@ func (w *World) Apply(ev Event) bool {
 			return false
 		}
 		w.logf("tx %d snd=%x rcv=%x %s gas=%d fault=%v", ev.N, m.Snd, m.Rcv, m.Data, m.Gas, ev.Fault)
+		w.checkBuilder(ev.Tx)
+		if len(w.Found) > 0 && w.StopAtFirst {
+			break
+		}
 		w.Run(m, ev.Fault)
 	case "deliver":
 		applied = w.Deliver(ev.ID, ev.Fault)
@@ -297,6 +301,31 @@ func (w *World) Apply(ev Event) bool {
 		}
 	}
 	return applied
+}
+
+// checkBuilder replays the builder calls that produced a transaction's data string (C12).
+func (w *World) checkBuilder(t *TxJSON) {
+	if t.Fn == "" {
+		return
+	}
+	args := make([][]byte, len(t.Args))
+	for i, a := range t.Args {
+		args[i] = unhx(a)
+	}
+	var data, pan string
+	func() {
+		defer func() {
+			if r := recover(); r != nil {
+				pan = fmt.Sprint(r)
+			}
+		}()
+		data = Rebuild(t.Fn, args, t.Ops)
+	}()
+	if pan != "" {
+		w.violate(spec.Violation{Props: spec.P("C12"), Clause: "builder", Detail: fmt.Sprintf("the tx-data builder panicked on %s%x: %s", t.Fn, args, pan)})
+		return
+	}
+	w.CheckBuilt(t.Fn, args, data)
 }
 
 // CheckRegistry checks C18's registry half and the activation flags of a shard.
